@@ -17,6 +17,16 @@ code -> spec : what the real code returned (indices as returned, values mapped b
                arrays - is written as ndjson and judged by ArrayMatchTrace.tla
                (the property-level clauses of ArrayMatch.tla; it also re-checks that
                every representation used is one the specification admits).
+world        : ArrayMatchWorld.tla is a world machine: sessions of match / match_multi calls over two array
+               objects in ONE process interleaved with the caller's steps Mutate (contents overwritten - a
+               read-only view / read-only memory map through the caller's writeable buffer / second map -
+               and the SAME object passed again), Replace (object dropped, a new one at its name / address),
+               Scribble (the caller overwrites index arrays it was handed), and calls passing the same
+               object twice.  TLC proves WorldFresh (every call = its outcome in a fresh world) for the
+               mechanism as written and refutes it for three deviating mechanisms (sort order remembered by
+               object identity; by address beyond death; remembered result arrays handed out).  Sessions
+               are drawn by tlc -simulate, each executed in one fresh forked process, and every call is
+               judged by ArrayMatchTrace.tla for the contents the arguments had at the time of the call.
 Python never judges a result; it only maps abstract <-> concrete and records.
 """
 import os
@@ -567,7 +577,7 @@ def judge_sessions(ctx, recs, what):
 
 def world_stats(sessions):
     st = {"ro_changed_then_passed_again": 0, "rw_changed_then_passed_again": 0, "replaced_then_called": 0, "scribbled_then_called": 0,
-          "same_object_twice": 0, "memmap": 0, "rejected_call_inside": 0}
+          "same_object_twice": 0, "memmap": 0}
     for c in sessions:
         tags = {session_class(c, k) for k, s in enumerate(c["steps"], 1) if s["op"] == "call" and not s["fn"].endswith("presorted")}
         st["ro_changed_then_passed_again"] += any(x.endswith("contents_changed_since_last_call") and "/rw/" not in x for x in tags)
@@ -829,7 +839,7 @@ def run(ctx):
             uniq.append(dict(c, kind="session"))
     sessions = uniq[:W["keep"]]
     wstats = world_stats(sessions)
-    need = max(3, len(sessions) // 12)
+    need = max(3, len(sessions) // 20)
     if len(sessions) < W["keep"] or any(len(c["steps"]) != W["depth"] for c in sessions) or \
             min(wstats[k] for k in ("ro_changed_then_passed_again", "rw_changed_then_passed_again", "replaced_then_called",
                                     "scribbled_then_called", "same_object_twice", "memmap")) < need:
@@ -911,17 +921,21 @@ def run(ctx):
                 "scale cases designed by the model (dense first arrays of 33..256 / 8193..65536 distinct values spanning a narrow "
                 "integer type, and of 5..50021 values in 32/64-bit and float types, against periodic second arrays of %s elements of "
                 "the same and wider types; generated arrays of %s elements for unique / rem_dup), judged through the laws "
-                "LinearAgrees / ConcatLaw / BlockJudgeAgrees / GenDedupAgrees that TLC proves on the small scope; a case "
+                "LinearAgrees / ConcatLaw / BlockJudgeAgrees / GenDedupAgrees that TLC proves on the small scope; plus %d sessions "
+                "of %d steps drawn by tlc -simulate from the world machine ArrayMatchWorld.tla (calls of match / match_multi "
+                "(+presorted) on 2 array objects - writeable, read-only view of a writeable buffer, read-only memory map - of 7 "
+                "element types x 4 placements, interleaved with Mutate / MutateBase, Replace and Scribble steps of the caller and "
+                "calls passing the same object twice), each run in one fresh process; a case "
                 "is distinct by its abstract record and non-trivial always" %
                 (E["MaxLen1"], len(E["A1Vals"]), E["MaxLen2"], len(E["A2Vals"]), E["RepLen2"], E["MaxLenD"], len(E["DVals"]),
                  len(E["FVals"]), E["NReps"], len(design["pairs"]), len(design["flags"]), ns, max1, max2, nscale,
-                 sorted(B["scale"]["ScaleN2"]), sorted(B["scale"]["ScaleND"])))
+                 sorted(B["scale"]["ScaleN2"]), sorted(B["scale"]["ScaleND"]), nsess, W["depth"]))
     ctx.exhaustive = True
     ctx.note(bounds={t: {k: sorted(v) if isinstance(v, set) else v for k, v in B[t].items()} for t in ("export", "mech", "scale", "laws")},
              exported_cases=state["exported"], real_calls=ncalls, scale_cases=nscale, scale_guard={k: sorted(v) if isinstance(v, set) else v
                                                                                                  for k, v in guard.items()},
              representation_choices={k: sorted(v) if k != "pairs" else len(v) for k, v in design.items()},
-             arguments_modified_by_calls=frame_bad)
+             arguments_modified_by_calls=frame_bad, world_sessions=nsess, world_session_features=wstats)
     ctx.assumptions = ["abstract values are realised by strictly increasing injections (checked for every case on the exact values and "
                        "against numpy's own ordering at start): match/unique/rem_dup depend on order and equality only",
                        "64-bit unsigned with signed integers (numpy compares them through float64), byte with unicode strings, "
@@ -930,7 +944,10 @@ def run(ctx):
                        "large cases are decided from small ones by laws of the specification (matching distributes over concatenation "
                        "of the second array; the clauses in linear / counting form), each checked by TLC against the clauses of the "
                        "statement on the small scope; the large second arrays are periodic, the large inputs of unique / rem_dup cyclic "
-                       "or in runs"]
+                       "or in runs",
+                       "the outcome of a call depends on the contents of its two arguments at the time of the call only (the statement "
+                       "speaks of the two arrays): sessions are sampled (tlc -simulate), so a clean run shows absence of such "
+                       "dependence on the sampled sessions only; presorted=True is passed only when the promise holds at that time"]
 
 
 def replay(ctx, case):
